@@ -31,7 +31,7 @@ META = {
         "reference model R-DTL (definition-level enumeration, cross-checked against an independent DP) is the judge",
         "cost vectors restricted to spe <= dup + 2*floss as the property is quantified (F-COHERENCE outside)",
     ],
-    "timeout": {"quick": 600, "thorough": 5400},
+    "timeout": {"quick": 420, "thorough": 5400},
 }
 
 NSHARD = 16
